@@ -464,6 +464,12 @@ Proof.
   exact (conj A (conj B (conj C (conj (I_idle s I) (conj (I_wt s I) (conj (I_one s I) (I_wrote s I))))))).
 Qed.
 
+Lemma first_tid_of_tid t l b sl' : of_tid t l = b :: sl' -> first_tid t l = Some b.
+Proof.
+  induction l as [|x l IH]; cbn; [discriminate|].
+  destruct (Nat.eqb_spec (fst x) t) as [E|E]; [intro H; injection H as -> _; reflexivity|exact IH].
+Qed.
+
 (* ------------------------------------------------------------------ M_msg *)
 Lemma inv_m_msg s s' : Inv s -> m_msg s = Some s' -> Inv s'.
 Proof.
@@ -473,7 +479,10 @@ Proof.
   destruct (chan s) as [|m r] eqn:Ec; [discriminate|].
   pose proof (I_chan s I Es) as CK. rewrite Ec in CK.
   pose proof (I_lost s I) as LK. rewrite Ec in LK.
-  destruct m as [b|b|n]; injection H as <-.
+  assert (HX : forall b, m = MExec b -> first_tid (fst b) (shl s) = Some b).
+  { intros b ->. specialize (CK (fst b)). cbn [chan_ok] in CK. rewrite Nat.eqb_refl in CK.
+    destruct CK as (sl' & Hsl & _). eapply first_tid_of_tid; eassumption. }
+  destruct m as [b|b|n|b]; [| | |rewrite (HX b eq_refl) in H]; injection H as <-.
   - (* REC_START *)
     apply Inv_intro; sp; try congruence.
     + apply (InvB_frame s); try reflexivity; [assumption|].
@@ -502,6 +511,19 @@ Proof.
       intro t. unfold pend; sp. rewrite Es, Ec. reflexivity.
     + intros _ t. exact (CK t).
     + cbn [chan_lost] in LK. lia.
+  - (* TASK_START of a known task: flush_old_shmem *)
+    set (s1 := set_shl (set_chan s r) (remove_first b (shl s))).
+    destruct (record_mmap_fields s1 b) as (F1 & F2 & F3 & F4 & F5 & F6 & F7).
+    apply Inv_intro; unfold curr_l; rewrite ?F1, ?F2, ?F3, ?F4, ?F5, ?F6, ?F7; unfold s1; sp; try congruence.
+    + apply (record_mmap_buffers s); try reflexivity; [assumption| |].
+      * unfold pend, s1; sp. rewrite Es, Ec. cbn [ends flat_map]. rewrite Nat.eqb_refl. reflexivity.
+      * intros t Hne. unfold pend, s1; sp. rewrite Es, Ec. cbn [ends flat_map].
+        destruct (Nat.eqb_spec (fst b) t); [congruence|]. reflexivity.
+    + intros _ t. specialize (CK t). cbn [chan_ok] in CK. fold (curr_l s t).
+      destruct (Nat.eqb_spec (fst b) t) as [E|E].
+      * destruct CK as (sl' & Hsl & CK). subst t. rewrite (remove_first_of_tid_head b (shl s) sl' Hsl). exact CK.
+      * rewrite remove_first_of_tid_other by assumption. exact CK.
+    + exact LK.
 Qed.
 
 (* ------------------------------------------------------------------ M_flush1 *)
